@@ -12,9 +12,9 @@ import (
 	"testing"
 	"time"
 
-	"github.com/paulsonkoly/chess-3/move"
 	"github.com/paulsonkoly/chess-3/search"
 
+	"verif/harness/conv"
 	"verif/harness/ev"
 	"verif/harness/gen"
 	"verif/harness/ref"
@@ -55,7 +55,7 @@ func xTranscript(g *xGame) []string {
 		out = append(out, fmt.Sprintf("search %d budget %d: move %v ponder %v score %d nodes %d infolines %d/%016x state %016x", i, n, res.Move, res.Ponder, res.Score, res.Nodes, len(res.Infos), h.Sum64(), s.VerifDigest()))
 		var next ref.Move
 		for _, m := range root.Pos.Legal() {
-			if move.Move(m) == res.Move {
+			if conv.M(m) == res.Move {
 				next = m
 			}
 		}
